@@ -255,7 +255,7 @@ def to_wire(v):
     if isinstance(v, (int, float)):
         return ["n", str(v)]
     if isinstance(v, list):
-        return ["a", str(v)]
+        return ["a", [to_wire(x) for x in v]]
     if isinstance(v, dict):
         return {k: to_wire(x) for k, x in v.items()}
     raise InfraError("value outside JSON: %r" % (v,))
@@ -354,7 +354,7 @@ def oracle_format(case, out):
 def valid_case(c):
     if not isinstance(c, dict) or c.get("kind") not in ("json", "url", "text", "clean", "google"):
         return False
-    for k in ("layout", "colour", "level", "enc"):
+    for k in ("layout", "colour", "level", "enc", "severity", "span"):
         if k in c and not (isinstance(c[k], int) and not isinstance(c[k], bool) and c[k] >= 0):
             return False
     if "name" in c and not isinstance(c["name"], str):
@@ -408,19 +408,70 @@ def run_clean(case):
     return res, err, "C20 clean " + wire.line(bool(colorize), to_wire(case["obj"]), digs)
 
 
+def severities():
+    """every severity write_event is called with: the six LEVELS members, their plain integers, None"""
+    from orso.logging.levels import LEVELS as L
+
+    return [L.DEBUG, L.INFO, L.WARNING, L.ERROR, L.AUDIT, L.ALERT, 10, 20, 30, 40, 80, 90, None, 25]
+
+
+SPANS = [None, "", "span-1", "SPANID77XX9Q"]
+_GOOGLE_BASE = {}
+
+
+def _google_call(gl, obj, severity, span):
+    return gl.GoogleLogger.write_event(obj, system="sys", severity=severity, spanId=span)
+
+
+def _google_invoke(gl, obj, severity, span):
+    """Every call of write_event goes through this one line, so that extract_caller() (which reports the
+    frame four levels up: this function) gives the same source location for the calibration call and
+    for the calls under test."""
+    buf = io.StringIO()
+    gl.logging_seen_warnings.clear()  # duplicate-warning suppression is state: start each call afresh
+    with contextlib.redirect_stdout(buf):
+        out = _google_call(gl, obj, severity, span)
+    return out, buf.getvalue()
+
+
+def google_base(sev_i, span_i):
+    """`structured_log` as it is before the message is stored (severity, labels, source location, span
+    id): a parameter of the model, read off a calibration call with an innocuous message."""
+    import orjson
+
+    key = (sev_i, span_i)
+    if key not in _GOOGLE_BASE:
+        gl = impl()["gl"]
+        out, _ = _google_invoke(gl, {"zz9": "1"}, severities()[sev_i], SPANS[span_i])
+        d = orjson.loads(out)
+        d.pop("message", None)
+        d.pop("zz9", None)
+        for k, v in d.items():
+            if not (isinstance(v, str) or (isinstance(v, dict) and all(isinstance(x, str) for x in v.values()))):
+                raise InfraError("unexpected shape of the structured log: %r" % (d,))
+        _GOOGLE_BASE[key] = d
+    return _GOOGLE_BASE[key]
+
+
 def run_google(case):
     st = impl()
-    buf = io.StringIO()
+    sev_i = case.get("severity", 0) % len(severities())
+    span_i = case.get("span", 0) % len(SPANS)
     try:
-        with contextlib.redirect_stdout(buf):
-            out = st["gl"].GoogleLogger.write_event(case["obj"], system="sys", severity=logging.DEBUG)
+        out, printed = _google_invoke(st["gl"], case["obj"], severities()[sev_i], SPANS[span_i])
         err = None
     except Exception as e:
-        out, err = None, type(e).__name__
+        out, printed, err = None, "", type(e).__name__
     f = st["lf"].LogFormatter(None)
     digs = []
     digests_of(case["obj"], f.hash_it, digs)
-    return out, buf.getvalue(), err, "C20 clean " + wire.line(False, to_wire(case["obj"]), digs)
+    try:
+        base = google_base(sev_i, span_i)
+    except InfraError:
+        raise
+    except Exception as e:  # write_event fails even on the calibration message: a defect, not a harness error
+        return out, printed, err or type(e).__name__, None
+    return out, printed, err, "C20 event " + wire.line(base, to_wire(case["obj"]), digs)
 
 
 def oracle_text(obj, text, placeholders=True):
@@ -509,18 +560,10 @@ def _eval_one(case):
         def compare(m):
             if err is not None:
                 return "write_event raised %s" % err
-            pairs = m[0]
-            try:
-                got = json.loads(out)
-            except ValueError:
-                return "write_event output is not JSON"
-            want_msg = str({k: v for k, v in pairs}) + " *"
-            reserved = ("severity", "message", "logging.googleapis.com/labels", "logging.googleapis.com/sourceLocation")
-            if not any(k in reserved for k, _ in pairs) and got.get("message") != want_msg:
-                return "write_event message differs"
-            for k, v in pairs:
-                if k not in reserved and got.get(k) != v:
-                    return "write_event member %r differs" % k
+            if m[0] != out:
+                return "write_event line differs"
+            if printed != out + "\n":
+                return "write_event printed something else than it returned"
             return None
 
         return clause, {"out": out, "err": err}, ml, compare
@@ -574,6 +617,9 @@ def evaluate(ctx, cases):
             ctx.hit("placeholders-due:%d" % min(len(due), 5))
         ctx.case(c, nontrivial)
         ctx.hit("kind:" + c["kind"])
+        if c["kind"] == "google":
+            ctx.hit("google:severity=%s" % (severities()[c.get("severity", 0) % 14],))
+            ctx.hit("google:span=%r" % (SPANS[c.get("span", 0) % len(SPANS)],))
         if c["kind"] in ("json", "url", "text"):
             ctx.hit("layout:%d" % (c.get("layout", 0) % len(LAYOUTS)))
             ctx.hit("colour:%d(%s)" % (c.get("colour", 0) % len(COLOURS), "on" if view.get("can") else "off"))
@@ -587,8 +633,15 @@ def evaluate(ctx, cases):
         m = None
         if i in mo_by_i and "obj" in c and array_of_objects(c["obj"]):
             # objects inside arrays are outside the quantifier: whether the sanitiser looks inside
-            # them is left open, so these records are judged by the oracle alone
+            # them is left open, so these records are judged by the oracle alone; how the tree
+            # behaves on them is only recorded (it is compared with the implemented, shallow reading)
             ctx.hit("oracle-only:array-of-objects")
+            mo = mo_by_i[i]
+            if not inside_repr_assumption(c["obj"]):
+                ctx.hit("array-of-objects:not-compared(outside-repr-assumption)")
+            else:
+                same = mo.startswith("ok ") and compare(wire.dec_all(mo[3:])) is None
+                ctx.hit("array-of-objects:%s" % ("as-shallow-model" if same else "differs-from-shallow-model"))
         elif i in mo_by_i and "obj" in c and not inside_repr_assumption(c["obj"]):
             ctx.hit("oracle-only:outside-repr-assumption")
         elif i in mo_by_i:
@@ -618,7 +671,7 @@ def evaluate(ctx, cases):
             what = compare(m)
             if what is not None:
                 ctx.disagree(c, view, m[0], what)
-        elif view.get("err") is not None and ml is not None:
+        elif view.get("err") is not None:
             ctx.disagree(c, view, None, "implementation raised " + view["err"])
 
 
@@ -628,8 +681,9 @@ ALNUM = "ABCDEFGHJKLMNPQRSTUVWXYZ23456789"
 
 
 def token(rng, n=10):
-    # always one letter and one digit, never a word
-    return "".join(rng.choice(ALNUM) for _ in range(n - 2)) + rng.choice("23456789") + rng.choice("GHJKLMNPQRSTUVWXYZ")
+    # always one letter and one digit, never a word; starts with a digit 2..9, i.e. inside the domain of
+    # C20.visible_token_in_record (`tokenHeadOK`: the first character occurs in no colour pattern)
+    return rng.choice("23456789") + "".join(rng.choice(ALNUM) for _ in range(n - 3)) + rng.choice("23456789") + rng.choice("GHJKLMNPQRSTUVWXYZ")
 
 
 SEPARATORS = ["|", " | ", "'", "`", '"', "''", "'x'", "`y`", " ", "\\", ",", "{", "}", "[", ":", "\n", "\t", "é", "中", "😀", "\u0001",
@@ -795,6 +849,21 @@ def settings_cases(ctx):
                 yield {"kind": "json", "obj": obj, "layout": layout, "colour": colour, "level": level, "enc": (layout + colour + level) % 4}
 
 
+def google_settings_cases(ctx):
+    """every severity x span id on one object with every pattern, a nested object and reserved keys"""
+    rng = ctx.rng
+    for sev in range(14):
+        for span in range(len(SPANS)):
+            obj = {"db_password": text_marker(rng, 1), "note": text_marker(rng, 3), "user_pwd": number_marker(rng),
+                   "ctx": {"api_key": {"v": token(rng)}, "x": token(rng), "auth_token": token(rng)},
+                   "My_Credentials_2": [token(rng)], "client_secret": "'" + token(rng) + "'"}
+            if (sev + span) % 3 == 0:
+                obj["message"] = token(rng)
+            if (sev + span) % 4 == 0:
+                obj["severity"] = token(rng)
+            yield {"kind": "google", "obj": obj, "severity": sev, "span": span}
+
+
 URL_PRE = ["", "connect to ", "see http://example.com/a?b=1 and ", "a | b ", "'", "mail bob@example.com then ", "x://", "line1\n", '{"a": ', "dsn=", "://", "@ ", "`"]
 URL_POST = ["", "/db failed", ":5432/db?sslmode=require", " | retry", "'", " and ftp://u2:%(tok)s@h2/", " then amqp://%(tok)s:%(tok2)s@mq and x@y", "\nredis://:%(tok)s@cache:6379/0", "\nnext", " @ ", "`", '"}']
 URL_SCHEME = ["postgres", "https", "ftp", "mongodb+srv", "redis", "amqp", "s3", ""]
@@ -818,7 +887,7 @@ def random_case(ctx, keys):
     if r < 0.80:
         return {"kind": "clean", "obj": random_obj(rng, keys, rng.choice([0, 1, 2, 3])), "colorize": rng.random() < 0.5}
     if r < 0.88:
-        return {"kind": "google", "obj": random_obj(rng, keys, rng.choice([0, 1, 2]))}
+        return {"kind": "google", "obj": random_obj(rng, keys, rng.choice([0, 1, 2, 3])), "severity": rng.randrange(14), "span": rng.randrange(len(SPANS))}
     if r < 0.94:
         # a JSON object that contains a URL
         obj = random_obj(rng, keys, 1)
@@ -950,6 +1019,11 @@ def run(ctx):
     impl()
     ctx.note("rule", "records (JSON objects depth 0..3 / URL texts / plain texts) formatted by LogFormatter under a layout, colour setting and "
              "level, plus clean_record and write_event calls; non-trivial = at least one token-carrying value; distinct by canonical JSON of the case")
+    ctx.note("reading_enforced", "nested objects only: a value under a sensitive key must be hidden at any depth of objects nested in "
+             "objects (Lean: eraseObj / clean_noninterference); arrays are values - an array under a sensitive key is hidden whole, an object "
+             "inside an array is NOT required to be sanitised and not required to be shown (the deep reading is stated in Lean as "
+             "eraseDeepObj / cleanDeepObj, proved equal to the enforced one on records where no sensitive key occurs inside an array, and "
+             "proved to be violated by the implementation: C20.implementation_is_shallow); input_distribution['array-of-objects:*'] records how this tree behaves")
     ctx.note("assumptions", [
         "digest (sha256 prefix), json.loads, logging.Formatter's line, Python str() of numbers and lists enter the model as parameters computed by the running code",
         "objects inside arrays are outside the quantifier: no demand on tokens below a sensitive key inside an array element",
@@ -963,7 +1037,7 @@ def run(ctx):
     check_sens_vs_spec(ctx, keys + [random_key(rng, keys) for _ in range(ctx.scale(300, 3000))])
     evaluate(ctx, [c for c in CORPUS if c is not CORPUS[5]])
     oracle_surrogate(ctx)
-    batch = list(settings_cases(ctx))
+    batch = list(settings_cases(ctx)) + list(google_settings_cases(ctx))
     evaluate(ctx, batch)
     n_ex = 0
     batch = []
